@@ -16,10 +16,10 @@ RULE = ("cases from rng(seed, 7, 0, i): trajectory graphs of kind r2/r3/se2/se3 
         "noisy measurements, perturbed initial guess or the textbook straight-line guess with exactly zero headings) and a frame change T with |t| up to 1e4 (1e6 thorough) and rotation from hostile classes (near 180 deg, "
         "w<0, angle at +-pi); K in 1..5 iterations; landmarks sometimes share one initial-guess object, sometimes lie kilometres away with guesses off by thousands; every 3rd case also moves one graph object to the new frame in place. distinct = fingerprint(spec, T, K); non-trivial = T has non-zero translation and (for SE types) non-identity rotation "
         "and the optimizer moved some vertex by more than 1e-6."
-        " later additions: a third of the cases also run with the default tol / max_iter (same stopping point and, for settled runs, transformed final poses) on frames up to 1e6.")
+        " later additions: a third of the cases also run with the default tol / max_iter (same stopping point and, for settled runs, transformed final poses) on frames up to 1e6; the K-th iteration alone is observed in both frames (a vertex left bitwise untouched in the new frame must have had a sub-resolution update in the original one).")
 REQ = ["eval:chi2-frame-invariant", "eval:trajectory-commutes-with-frame-change", "class:se2", "class:se3", "class:r2", "class:r3", "class:T:near180_or_pi", "class:K=1", "class:K=5",
        "class:landmarks", "class:straight_line_initial_guess(exact zero headings)", "class:frame_changed_in_place_on_same_objects", "class:landmarks_share_one_initial_guess_object",
-       "class:large_scale_map_far_landmark_guesses", "class:default_arguments_run"]
+       "class:large_scale_map_far_landmark_guesses", "class:default_arguments_run", "class:last_step_observed"]
 PLAN = {
     "quick": {"cases": 1200, "soft_s": 80, "min_nontrivial": 300, "require": REQ},
     "thorough": {"cases": 50000, "soft_s": 1300, "min_nontrivial": 10000, "require": REQ},
@@ -103,6 +103,38 @@ def frame_check(ctx, spec, k, T, K, tl=(), where="generated", cond_max=1e8, inpl
         moved = max(moved, d0[0], d0[1])
     ctx.margin("trajectory-commutes-with-frame-change", worst / tol)
     ctx.check("trajectory-commutes-with-frame-change", worst <= tol, dict(feats, K=K), {"worst": worst, "tol": tol, "cond": cond, "T": T}, case)
+    if K >= 2 and worst <= tol and amp < 30:
+        # last-step observation (seeded change C07-22: updates dropped when "numerically zero" relative to the absolute coordinates): a free vertex
+        # whose pose the K-th iteration leaves bitwise untouched in the new frame had an update below the resolution of its coordinates there, so the
+        # same vertex's K-th update in the original frame is bounded by that resolution (amplified by the solve) plus the measured state mismatch
+        try:
+            ga, gb = M.build(spec), M.build(spec_t)
+            M.quiet_optimize(ga, max_iter=K - 1, tol=0.0)
+            M.quiet_optimize(gb, max_iter=K - 1, tol=0.0)
+            pa, pb = [M.fl(v.pose) for v in ga._vertices], [M.fl(v.pose) for v in gb._vertices]
+            wprev = 0.0
+            for v, a_, b_ in zip(ga._vertices, pa, pb):
+                kk = M.kind(v.pose)
+                exp = R.vals(R.oplus(k, T, a_)) if (kk == k and k not in ("r2", "r3")) else R.vals(R.act(k, T, a_))
+                if not all(math.isfinite(x) for x in exp + b_):
+                    wprev = math.inf
+                    break
+                wprev = max(wprev, *M.pose_distance(kk, exp, b_))
+            M.quiet_optimize(ga, max_iter=1, tol=0.0)
+            M.quiet_optimize(gb, max_iter=1, tol=0.0)
+            if math.isfinite(wprev):
+                lbound = 64 * R.EPS * (1.0 + tmagT + scene) * (1.0 + cond) + 10.0 * (1.0 + amp) * wprev
+                for j, (va, vb) in enumerate(zip(ga._vertices, gb._vertices)):
+                    if j == 0 or vb.fixed:
+                        continue
+                    qa, qb = M.fl(va.pose), M.fl(vb.pose)
+                    if qb == pb[j] and all(math.isfinite(x) for x in qa + pa[j]):
+                        so = max(M.pose_distance(M.kind(va.pose), pa[j], qa))
+                        ctx.check("trajectory-commutes-with-frame-change", so <= lbound, dict(feats, K=K, variant="vertex left untouched by the last iteration in the new frame"),
+                                  {"update_in_original_frame": so, "bound": lbound, "vertex_index": j, "T": T}, case)
+                ctx.count("class:last_step_observed")
+        except Exception:  # noqa: BLE001 - the main comparison above already judged exceptions of these calls
+            ctx.count("last_step_observation_skipped:exception")
     if inplace:
         # history: the same graph object evaluated in the original frame, then moved to the new frame by writing into the pose arrays in place
         gi = M.build(spec)
